@@ -11,7 +11,8 @@ from . import common
 
 common.setup_repo_path()
 
-SCRATCH = common.BUILD / 'scratch'
+# one scratch root per check run (forked workers inherit it): concurrent checks must not remove each other's files
+SCRATCH = common.BUILD / 'scratch' / f'run{os.getpid()}'
 
 
 def scratch_dir() -> Path:
@@ -48,4 +49,12 @@ def module_for(thunk, axioms=(), notations=(), claim=None):
 
 
 def cleanup() -> None:
+    import time
     shutil.rmtree(SCRATCH, ignore_errors=True)
+    # leftovers of runs that died: only old ones
+    try:
+        for d in SCRATCH.parent.iterdir():
+            if time.time() - d.stat().st_mtime > 6 * 3600:
+                shutil.rmtree(d, ignore_errors=True)
+    except OSError:
+        pass
